@@ -387,6 +387,7 @@ def run(tier, replay=None):
     run_nullness(chk, F)
     run_signatures(chk, F)
     run_aliasing(chk, F)
+    run_entry_order(chk, F)
     chk.assumptions += ['clang 14 parser; template patterns', 'tables/c09.json']
     return chk
 
@@ -695,3 +696,85 @@ def run_aliasing(chk, F):
                        '`&column == this`: the column is iterated while it is modified' % (src, tgt),
                        key='E2g|%s::%s|alias' % (cname, f['name']))
     chk.expect_count('E2g-alias', 'column operations with a looked-up source', n, 6)
+
+
+# ------------------------------------------------------------------ R12 order of entries (E9)
+
+ORDER_ALGOS = {'sort': 2, 'stable_sort': 2, 'max_element': 2, 'min_element': 2, 'is_sorted': 2,
+               'binary_search': 3, 'lower_bound': 3, 'upper_bound': 3, 'equal_range': 3, 'inplace_merge': 3}
+
+
+def run_entry_order(chk, F):
+    """R12: the vector-like and hashed columns store *pointers* to entries. A column is kept (or searched) in the
+    order of the row indices, so every ordering algorithm applied to such a container passes a comparator, and the
+    comparator compares the entries, not the pointers: it is the strict order on the row index (evaluated on the
+    three relations of the two row indices). Without a comparator the order is the order of the addresses."""
+    from gsa import cmprules
+    n = 0
+    for cn in COLUMNS:
+        fns = [f for f in F.functions if f.get('clsname') == cn and f.get('inst') in (0, 2) and
+               f.get('body') is not None and '/columns/' in f['file']]
+        if not fns:
+            continue
+        # evidence that column_ holds pointers: its elements are handed to the pool's destroy as they are
+        holds_ptrs = any(ir.is_call(x) and ir.call_name(x) == 'destroy' and ir.call_args(x) and
+                         not ir.show(ir.call_args(x)[0]).startswith('&')
+                         for f in fns for x in ir.walk(f['body']))
+        if not holds_ptrs:
+            continue
+        for f in fns:
+            for x in ir.walk(f['body']):
+                if not ir.is_call(x) or ir.call_name(x) not in ORDER_ALGOS:
+                    continue
+                args = ir.call_args(x)
+                rng = ir.show(args[0]) if args else ''
+                need = ORDER_ALGOS[ir.call_name(x)]
+                recv = ir.call_receiver(x)
+                if recv is not None and ir.call_name(x) == 'sort' and 'std' not in ir.show(ir.callee_expr(x))[:4]:
+                    # member sort of a list: container.sort(comp)
+                    rng = ir.show(recv) + '.begin()'
+                    need = 0
+                elif 'begin' not in rng:
+                    continue
+                n += 1
+                comp = ir.skipcasts(args[need]) if len(args) > need else None
+                while comp is not None and comp.get('k') in ('MaterializeTemporaryExpr', 'CXXBindTemporaryExpr',
+                                                             'ExprWithCleanups') and comp.get('c'):
+                    comp = ir.skipcasts(comp['c'][0])
+                where = '%s:%s' % (rel(f['file']), x.get('l'))
+                key = 'E9|%s::%s|%s|%s' % (cn, f['name'], ir.call_name(x), rng.split('.')[0])
+                if comp is None:
+                    chk.ob('E9-entry-order', '%s::%s: std::%s over %s compares entries' % (cn, f['name'],
+                                                                                           ir.call_name(x), rng),
+                           where, False, 'no comparator is passed: the elements are Entry pointers, so the range is '
+                           'ordered by address, not by row index', key=key)
+                    continue
+                if comp.get('k') != 'LambdaExpr':
+                    # a named functor: it must be a comparator type of the class (EntryPointerComp)
+                    t = ir.show(comp)
+                    ok = 'Comp' in t
+                    chk.ob('E9-entry-order', '%s::%s: std::%s over %s uses the entry comparator' %
+                           (cn, f['name'], ir.call_name(x), rng), where, ok, '' if ok else 'comparator %s' % t, key=key)
+                    continue
+                ps = [p_['n'] for p_ in comp.get('params', [])]
+                if len(ps) != 2:
+                    raise AnalysisBroken('C09: comparator lambda with %d parameters in %s' % (len(ps), f['qual']))
+                pseudo = {'qual': '%s::%s comparator (line %s)' % (cn, f['name'], comp.get('l')), 'file': f['file'],
+                          'line': comp.get('l') or f['line'], 'body': comp['body'], 'params': comp.get('params', [])}
+                cas = cmprules.Cascade(pseudo, None, None)
+                keys = cas.keys()
+                good_keys = [k_ for k_ in keys if k_ in ('*@', '@->get_row_index()', '(*@).get_row_index()')]
+                ok = len(keys) == 1 and len(good_keys) == 1
+                detail = ''
+                if ok:
+                    res = {}
+                    for r in ('lt', 'eq', 'gt'):
+                        res[r] = cas.run({keys[0]: r})
+                    ok = res == {'lt': True, 'eq': False, 'gt': False}
+                    detail = '' if ok else 'on (row1 < row2, row1 == row2, row1 > row2) it returns %s' % \
+                        [res['lt'], res['eq'], res['gt']]
+                else:
+                    detail = 'keys compared: %s (expected the dereferenced entries / their row indices)' % keys
+                chk.ob('E9-entry-order', '%s::%s: std::%s over %s uses the strict order of the row indices'
+                       % (cn, f['name'], ir.call_name(x), rng), where, ok, detail, key=key)
+    chk.expect_count('E9-entry-order', 'ordering algorithms over entry-pointer containers', n, 8)
